@@ -292,6 +292,9 @@ for _k, _v in EXTRA.items():
 EXTRA5 = {
     "C06": " Fifth session: the real adaptive_euler_step is under contract for this property as well - every attempt (first and retried) is a step of the solver's own psi Laplacian (the operator that carries the pinned rows) on the caller's psi, and the arrays handed back are the answered attempt's result as it is, on every return path; native: scripted refusals of the first 0..3 attempts on a real solver, terminal sites stay at the terminal value.",
     "C08": " Fifth session: the time and voltage scales a user multiplies the dimensionless results with - Device.tau0 / V0 (and kappa, Lambda, conductivity) - are under contract on the pint model with a symbolic length-unit factor: tau0 = mu0 sigma lambda^2 in seconds, V0 = xi (K0 / d) / sigma in volts, stated in SI quantities of the film only (the same film in another length unit has the same scales); an explicit conductivity takes precedence, no conductivity is refused; native: one film stated in um / nm / mm.",
+    "C09": " Fifth session: the constructor carries the frame condition 'a solver is a function of its arguments: constructing one writes no module-level state' (candidate, lru_cache tables included; shared with the constructor units of C01, C06, C08, C10, C12, C19); the history harness also runs the 'output path used before' histories in the quick tier, one of them with exactly as many frames as the run under test.",
+    "C16": " Fifth session: ARRAY arguments - CompositeParameter.__call__ executed on the instrumented source with array-valued operands (stored arrays, functions returning their input, cached time-dependent operands, complex values) evaluated three times at the same points: pointwise every time, argument arrays and arrays handed out by operand functions not written, operands still evaluate to their own function afterwards (frame condition decided on concrete arrays: whether a call writes to an array it did not create does not depend on the values).",
+    "C17": " Fifth session: native - epsilon = 1 stated as a function made by a factory stays stationary after a sibling function of the same factory (a weak spot) served another run on the same device.",
     "C14": " Fifth session: what 'compares equal' means for the raw data of a step and the per-step records is under contract (array_safe_equals, dataclass_equals, TDGLData.__eq__, DynamicsData.__eq__): equal exactly when every field has the same shape and is close (numpy default tolerances or tighter), no field skipped, fields paired across the two objects, an object equals itself, different classes are unequal, nothing written.",
     "C18": " Fifth session: the class-level constructors Polygon.from_union / from_intersection / from_difference are under contract (left fold of the named operation over the items in order, requested name and mesh flag, items neither written nor shared) and in the native oracle (three-operand chains against point-wise membership).",
     "C19": " Fifth session: a rejection may only happen before the run starts - the per-step boundary update (update_mu_boundary, run after the output was created) answers for every current assignment and never raises a validation error; native: currents given as a function of time that are balanced at t = 0 and unbalanced later are refused before any file exists.",
